@@ -49,13 +49,14 @@ class C16(Prop):
                   "sample rate 1 if n <= cap else cap/n (C16_concurrent_accounting_except_late_push; C16_concurrent_accounting_outside_known_class for the "
                   "run a replayed case denotes). Unconditionally: count = fetch_adds since the last reset, no push panics, len = min(count read, cap), "
                   "returned drains are logged, consumers exclude each other and use_primary selects the other side while a drain is between swap and reset. "
-                  "The late-push pattern breaks per-drain accounting (C16_late_push_refutes).")
-    level_note = ("PARTIAL link between the executable threaded check and the model: C16_spec_clauses_on_model_partial proves, by a refinement between the "
-                  "trace walker (windows cut at the trace's 1606 steps) and the ghost ledgers along exec_full, that outside the known class every run of "
-                  "the model passes the no-anomaly clause and every drain clause of spec_ok (count = |window|, len, number read, rate, values of the window "
-                  "only, prefix in fetch_add order if count <= cap); the push-result clause (rank idx in the window => no draw if idx < cap, else bound "
-                  "idx+1) is NOT proved on the model; the whole of spec_ok is evaluated on every "
-                  "replayed schedule instead (the implementation's own traces) and "
+                  "The late-push pattern breaks per-drain accounting (C16_late_push_refutes). "
+                  "C16_spec_ok_on_model: for every case (sequential or threaded) outside the known class, any observation that agrees with the model passes "
+                  "spec_ok - no anomaly, every drain clause, every push reports no draw below capacity and bound rank+1 above (example: racing_case_in_scope).")
+    level_note = ("The executable check is proved to accept the model: C16_spec_ok_on_model (every case, sequential or threaded, every rate check) - for "
+                  "threaded cases by a refinement between the trace walker (windows cut at the trace's 1606 steps, pushes ranked by their 1602 steps) and "
+                  "the ghost ledgers along exec_full, outside the open known class. What ties the model to /repo remains the per-run evaluation: spec_ok "
+                  "and the model comparison are evaluated on every "
+                  "replayed schedule and sequential history (the implementation's own traces) and "
                   "held on all of them, failing only inside the open known class C16-late-push. Uniformity is conditional on rand's random_range "
                   "being uniform on the requested range AND on the thread-local generators being seeded independently per thread (both trusted by the "
                   "theorem; the hook only checks the range requested; both are SAMPLED per run: single-thread and fresh-thread retention trials within "
